@@ -80,7 +80,7 @@ def profile(name, rng):
                  timeouts=[0, 1, 3, 5, 12, 40], expireds=[0, 1, 3, 8, 15, 40, 60], tickmax=rng.choice([2, 6, 15]), prio=rng.choice([0, 0, 0.2]),
                  prios=[0, 1, 2])
     elif name == "flags":
-        p.update(show=0.12, update=0.2, showupdate=0.05, conc=0.1, unlimited=0.1, aofflags=0.25, ufirst=0.15, ucancel=0.2,
+        p.update(show=0.12, update=0.2, showupdate=0.05, conc=0.1, unlimited=0.1, aofflags=0.25, ufirst=0.15, ucancel=0.2, waitunlock=0.12,
                  counts=[0, 1], rcounts=[0, 1], expireds=[0, 3, 6, 10, 30, 45], timeouts=[0, 2, 5, 10, 38])
     elif name == "zero":
         # the all-zero key and LockId, a one-slot key table so managers collide and recycle constantly
